@@ -36,6 +36,7 @@ class TlcResult:
 _RE_STATES = re.compile(r"(\d+) states generated, (\d+) distinct states found")
 _RE_DEPTH = re.compile(r"The depth of the complete state graph search is (\d+)")
 _RE_INV = re.compile(r"Error: Invariant (\S+) is violated")
+_RE_DEADLOCK = re.compile(r"Error: Deadlock reached")
 _RE_PROP = re.compile(r"Error: Action property (\S+) is violated|Error: Temporal properties were violated")
 _RE_COV = re.compile(r"^<(\w+) line (\d+), col (\d+) to line (\d+), col (\d+) of module (\w+)>: (\d+):(\d+)")
 
@@ -113,6 +114,8 @@ def run_tlc(module: str, cfg: str, workdir: str, workers: int = 16, extra_module
         m = _RE_INV.search(line)
         if m:
             res.violated = m.group(1)
+        if _RE_DEADLOCK.search(line):
+            res.violated = "Deadlock (the machine is stuck before the program finished)"
         m = _RE_PROP.search(line)
         if m:
             res.violated = m.group(1) or "temporal"
